@@ -262,6 +262,10 @@ func (m c08) checkLocator(c *fw.Ctx, r *rand.Rand, tab []gts.Feature, seqB []byt
 		var locate gts.Locator
 		locate, err = gts.AsLocator(str)
 		if err == nil {
+			// a Locator is a reusable function: what it returns for a sequence
+			// must not depend on earlier invocations (the CLI applies one locator
+			// to every record of a stream). The second result is the one judged.
+			locate(host)
 			rr = locate(host)
 		}
 	})
